@@ -44,9 +44,12 @@ Record keyinv (st : state) (c : nat) (sig : N) : Prop := {
 }.
 
 Definition no_derror (f : dframe) : Prop := match f with DError _ _ => False | _ => True end.
+Definition is_dreply (f : dframe) : Prop := match f with DReply _ _ => True | _ => False end.
+Lemma is_dreply_no_derror f : is_dreply f -> no_derror f.
+Proof. now destruct f. Qed.
 Record Proto (st : state) : Prop := {
   p_key : forall c sig, keyinv st c sig;
-  p_pend : forall c f n, pend st = Some (c, f, n) -> no_derror f;
+  p_pend : forall c f n, pend st = Some (c, f, n) -> is_dreply f;
   p_down : forall c f, In f (down st c) -> no_derror f
 }.
 
